@@ -402,16 +402,38 @@ let run_qr t =
   (* (a model following a mutated source may have lost the stream: still print a line) *)
   let lost = (underlying !r = None) in
   let und = match underlying !r with Some u -> u | None -> qrecv_new (!r).r_id in
-  let pstop = if lost then "LOST" else match und.qr_stops with
+  let pstop = if lost && fname = "fin" then "LOST" else match und.qr_stops with
     | c :: _ -> string_of_n c
     | [] -> if fname = "fin" then "none" else "-" in
+  let events_main = !events in
+  (* after a failed read: poll again, ask the id, stop, poll once more.  What Quinn 0.11 answers then (observed,
+     not constrained by the property): end of stream after a reset or a local stop, the same error again while
+     the connection is lost *)
+  let re_n = gi t "re" 0 and restop = (match gs t "restop" "-" with "-" -> None | c -> Some (n_of_string c)) in
+  let failed = (match !ended with Some e -> String.length e > 4 && String.sub e 0 4 = "err:" | None -> false) in
+  let re_out = ref [] and rs_out = ref "-" in
+  let again = match quinn_read_condition (fault_of fname fcode) with
+    | Some (QRConnectionLost e) -> RFail (QRConnectionLost e)
+    | _ -> RFin in
+  if failed && re_n > 0 then begin
+    for _ = 1 to re_n do re_out := show (poll again) :: !re_out done;
+    ids := (match recv_id !r with Ok i -> string_of_n i | _ -> "PANIC") :: !ids;
+    (match restop with
+     | Some c ->
+       stop_sending c;
+       ids := (match recv_id !r with Ok i -> string_of_n i | _ -> "PANIC") :: !ids;
+       (* parked instead of delivered = the stream was not at hand *)
+       rs_out := (if (!r).r_pending_stop <> None then "PARKED" else show (poll RFin))
+     | None -> ())
+  end;
+  let re_s = if !re_out = [] then "-" else String.concat "/" (List.rev !re_out) in
   let pclose = if fname = "lclose" then (match conn_close (via_of t) fcode with Ok c -> string_of_n c | _ -> "PANIC") else "-" in
   let xid = if kind = "uni" then "-" else
       (match bidi_new id with Ok b -> (match send_id b.b_send with Ok i -> string_of_n i | _ -> "PANIC") | _ -> "PANIC") in
   let endv = match !ended with Some e -> e | None -> "open" in
-  let model = Printf.sprintf "ok end=%s recv=%s pfx=ok p1=%s p2=%s ids=%s pid=%s xid=%s pstop=%s pclose=%s"
+  let model = Printf.sprintf "ok end=%s recv=%s pfx=ok p1=%s p2=%s ids=%s pid=%s xid=%s pstop=%s pclose=%s re=%s rs=%s"
       endv (digest (List.concat (List.rev !got))) p1s !p2s
-      (if !ids = [] then "-" else String.concat "," (List.rev !ids)) (string_of_n und.qr_id) xid pstop pclose in
+      (if !ids = [] then "-" else String.concat "," (List.rev !ids)) (string_of_n und.qr_id) xid pstop pclose re_s !rs_out in
   (* ---- specification line *)
   let send_ = if stop_when <> "none" then "fin" else
       (match fname with
@@ -419,14 +441,21 @@ let run_qr t =
        | _ -> (match spec_read_fault (fault_of fname fcode) with Some e -> "err:" ^ stream_class e | None -> "*")) in
   let srecv = if fname = "fin" && stop_when = "none" then
       digest (List.concat (List.mapi (fun j l -> gen_bytes seed j 0 l) chunks)) else "*" in
-  let st = stop_run { in_flight = false; held = None; delivered = [] } (List.rev !events) in
+  let st = stop_run { in_flight = false; held = None; delivered = [] } (List.rev events_main) in
   let spstop = match st.delivered with c :: _ -> string_of_n c | [] -> if fname = "fin" then "none" else "-" in
   let sid = string_of_n id in
-  let spec = Printf.sprintf "ok end=%s recv=%s pfx=ok p1=%s p2=%s ids=%s pid=%s xid=%s pstop=%s pclose=%s"
+  (* re-reads: never a panic; while the connection is lost the same class and code again; after a reset / a
+     local stop whatever Quinn gives *)
+  let sre = if not (failed && re_n > 0) then "-" else
+      (match spec_read_fault (fault_of fname fcode) with
+       | Some (HConnErr c) -> String.concat "/" (List.init re_n (fun _ -> "err:" ^ conn_class c))
+       | _ -> "*") in
+  let spec = Printf.sprintf "ok end=%s recv=%s pfx=ok p1=%s p2=%s ids=%s pid=%s xid=%s pstop=%s pclose=%s re=%s rs=%s"
       send_ srecv (if stop_when = "idle" then "fin" else "pending")
       (if String.length stop_when >= 4 && String.sub stop_when 0 4 = "pend" then "pending" else "-")
       (if !ids = [] then "-" else sid) sid (if kind = "uni" then "-" else sid) spstop
-      (if fname = "lclose" then string_of_n fcode else "-") in
+      (if fname = "lclose" then string_of_n fcode else "-") sre
+      (if failed && re_n > 0 && restop <> None then "*" else "-") in
   model ^ " | " ^ spec
 
 (* ------------------------------------------------------------------ qa *)
